@@ -116,6 +116,8 @@ pub enum Extra {
     /// blk file number n is kept in the sibling directory `<dir>.archive/` under its own name and the data directory holds a
     /// symbolic link to it (older files moved to a bigger disk and linked back)
     Archived(u64),
+    /// another LevelDB database at `path` (relative to the data directory, e.g. "../chainstate") with these key / value pairs
+    LevelDb(String, Vec<(Vec<u8>, Vec<u8>)>),
 }
 
 #[derive(Clone, Debug)]
@@ -270,6 +272,7 @@ impl World {
                 Extra::Symlink(n, t) => json!(["symlink", n, t]),
                 Extra::Nested(n, w) => json!(["nested", n, w.describe()]),
                 Extra::Archived(n) => json!(["archived", n.to_string()]),
+                Extra::LevelDb(n, kv) => json!(["leveldb", n, kv.iter().map(|(k, v)| json!([hex(k), hex(v)])).collect::<Vec<_>>()]),
             })
             .collect();
         json!({"coin": self.coin.name, "files": files, "index_ops": ops, "xor_key": self.xor_key.as_ref().map(|k| hex(k)), "extra": extra})
@@ -302,6 +305,7 @@ impl World {
                 "symlink" => w.extra.push(Extra::Symlink(e[1].as_str().unwrap().to_string(), e[2].as_str().unwrap().to_string())),
                 "nested" => w.extra.push(Extra::Nested(e[1].as_str().unwrap().to_string(), Box::new(World::from_description(&e[2])))),
                 "archived" => w.extra.push(Extra::Archived(e[1].as_str().unwrap().parse().unwrap())),
+                "leveldb" => w.extra.push(Extra::LevelDb(e[1].as_str().unwrap().to_string(), e[2].as_array().unwrap().iter().map(|p| (unhex(p[0].as_str().unwrap()), unhex(p[1].as_str().unwrap()))).collect())),
                 _ => w.extra.push(Extra::Dir(e[1].as_str().unwrap().to_string())),
             }
         }
@@ -337,6 +341,11 @@ impl World {
                     std::os::unix::fs::symlink(t, dir.join(n))?
                 }
                 Extra::Nested(n, w) => w.materialise(&dir.join(n))?,
+                Extra::LevelDb(n, kv) => {
+                    let ops: Vec<IndexOp> = kv.iter().map(|(k, v)| IndexOp::Put(k.clone(), v.clone())).collect();
+                    let _ = fs::remove_dir_all(dir.join(n));
+                    write_index(&dir.join(n), &ops).map_err(|e| std::io::Error::new(std::io::ErrorKind::Other, format!("leveldb {}: {}", n, e)))?;
+                }
                 Extra::Archived(n) => {
                     if let Some(f) = self.files.get(n) {
                         let mut arch = dir.as_os_str().to_os_string();
